@@ -97,6 +97,18 @@ class Run:
             violations=len(self.violations),
         )
         ev['coverage'].update(self.evidence_extra)
+        if ev['level'] == 'exploration':
+            # exploration-level evidence: the counts of the bounded stand-ins are the coverage
+            tot_e, tot_d, samples2, rules = 0, 0, [], []
+            for name, b in (bounded or {}).items():
+                tot_e += b.get('evaluations', 0)
+                tot_d += b.get('distinct_nontrivial', 0)
+                samples2 += b.get('samples', [])[:3]
+                rules.append('%s: %s' % (name, b.get('rule', '')))
+            ev['coverage']['evaluations'] = tot_e
+            ev['coverage']['distinct_nontrivial'] = tot_d
+            ev['coverage']['rule'] = ' | '.join(rules)
+            ev['coverage']['samples'] = samples2 or ev['coverage'].get('samples', [])
         os.makedirs(os.path.join(HERE, 'evidence'), exist_ok=True)
         with open(os.path.join(HERE, 'evidence', '%s.json' % self.prop), 'w') as f:
             json.dump(ev, f, indent=1, default=str)
@@ -230,7 +242,7 @@ def check(run, cfg):
     if extra:
         obligations += extra(run)
     verify.merge_names(obligations)
-    if not obligations:
+    if not obligations and cfg.get('level') != 'exploration':
         raise CannotBind('zero obligations generated')
     # ---- discharge
     results = solve.discharge(obligations, timeout_ms=10000 if quick else 60000, both=not quick,
